@@ -48,7 +48,7 @@ func TestMain(m *testing.M) {
 	if os.Getenv("VERIF_VERBOSE") != "1" {
 		l := logging.Logger()
 		*l = l.Level(zerolog.WarnLevel)
-		gnarkLogger.Set(*l)
+		gnarkLogger.Disable()
 	}
 	os.Exit(m.Run())
 }
